@@ -80,7 +80,9 @@ TCaUnknown == /\ Is("CaUnknown") /\ Adv
 TCaUpdate == /\ Is("CaUpdate") /\ Adv
              /\ ca' = [ca EXCEPT ![Ev.ep].c = Ev.c]
              /\ updC' = updC + 1
-             /\ bad' = Chk("C11_OneUpdatePerItem", updC = 0)
+             \* one update per changed item: at most one in a renewal, and none when the CA already held the configured contacts when
+             \* the renewal began (an update that was accepted is not sent again, whatever the CA's answer looked like)
+             /\ bad' = Chk("C11_OneUpdatePerItem", updC = 0 /\ ~(snapCa[Ev.ep].exists /\ snapCa[Ev.ep].c = cfg.c))
              /\ UNCHANGED <<cfg, img, justified, persisted, loading, snapImg, snapCa, canConv, updK, renewing, regd>>
 
 TCaRekey == /\ Is("CaRekey") /\ Adv
